@@ -5,8 +5,114 @@ Property theorems only; helper lemmas live in `AstGrepVerif/Lemmas/`.
 import AstGrepVerif.Model.MetaVar
 import AstGrepVerif.Model.Notation
 import AstGrepVerif.Model.Template
+import AstGrepVerif.Lemmas.MetaVar
+import AstGrepVerif.Lemmas.Template
+import AstGrepVerif.Generated.Tables
+
+set_option linter.unusedSimpArgs false
+set_option linter.unusedVariables false
 
 namespace AGV.C20
+
+/-! ## Meta-variable spellings -/
+
+/-- The recogniser accepts exactly the documented spellings (`Spelling`, in
+`Lemmas/MetaVar.lean`: `$$$`, `$$$_…`, `$$$NAME`, `$NAME`, `$$NAME`, `$_…`, `$$_…` with
+`NAME ∈ [A-Z_][A-Z0-9_]*`, multi-capture names also digit-first), with the documented
+meaning, for every meta character that is not itself a name character. -/
+theorem extract_spec (mc : Char) (hmc : isValidMetaVarChar mc = false) (s : List Char) (v : MetaVar) :
+    extractMetaVar s mc = some v ↔ Spelling mc s v :=
+  ⟨extract_sound, extract_complete hmc⟩
+
+/-- lower-case names (any character outside `[A-Z0-9_]` other than the sigil) are never holes -/
+theorem no_hole_foreign_char (mc : Char) (s : List Char) (c : Char)
+    (hc : c ∈ s) (hne : c ≠ mc) (hv : isValidMetaVarChar c = false) :
+    extractMetaVar s mc = none :=
+  extract_none_of_foreign_char hc hne hv
+
+/-- digit-first names after one or two sigils are never holes -/
+theorem no_hole_digit_first (mc : Char) (hmc : isValidMetaVarChar mc = false) (d : Char) (w : List Char)
+    (hd : isAsciiDigit d = true) :
+    extractMetaVar (mc :: d :: w) mc = none ∧ extractMetaVar (mc :: mc :: d :: w) mc = none := by
+  have hdf : isValidFirstChar d = false := by
+    simp only [isAsciiDigit, Bool.and_eq_true, decide_eq_true_eq] at hd
+    simp only [isValidFirstChar, Bool.or_eq_false_iff, Bool.and_eq_false_iff, decide_eq_false_iff_not,
+      beq_eq_false_iff_ne, ne_eq]
+    have h1 : 'A'.toNat = 65 := by decide
+    have h2 : '0'.toNat = 48 := by decide
+    have h3 : '9'.toNat = 57 := by decide
+    refine ⟨.inl (by omega), ?_⟩
+    intro h; subst h; revert hd; decide
+  have hdm : d ≠ mc := by
+    intro h; subst h
+    simp [isValidMetaVarChar, hd] at hmc
+  have hmd : mc ≠ d := fun h => hdm h.symm
+  constructor
+  · have hs : stripPrefix? [mc, mc, mc] (mc :: d :: w) = none := by simp [stripPrefix?, hmd]
+    simp [extractMetaVar, hs, hdm, hmd, startsWithP, hdf]
+  · have hs : stripPrefix? [mc, mc, mc] (mc :: mc :: d :: w) = none := by simp [stripPrefix?, hmd]
+    simp [extractMetaVar, hs, hdm, hmd, startsWithP, hdf]
+
+/-- lone sigils are never holes (`$`, `$$`; `$$$` is the anonymous ellipsis) -/
+theorem no_hole_lone_sigil (mc : Char) :
+    extractMetaVar [mc] mc = none ∧ extractMetaVar [mc, mc] mc = none := by
+  constructor <;> simp [extractMetaVar, stripPrefix?, startsWithP]
+
+/-- **Uniformity.** For every expando character that is not a name character and does not
+occur in the pattern token, recognising the pre-processed token with the expando is the same as
+recognising the original `$` token: `$A`, `$$A`, `$_`, `$$$`, `$$$A`, … mean the same thing in
+every such language, and whatever is not a hole with `$` is not a hole there either. -/
+theorem uniform_across_languages (e : Char) (s : List Char)
+    (he : isValidMetaVarChar e = false) (hd : e ≠ '$') (hs : e ∉ s) :
+    extractMetaVar (preProcessPattern e s) e = extractMetaVar s '$' := by
+  unfold preProcessPattern
+  cases h : extractMetaVar s '$' with
+  | some v =>
+    rw [preProcess_of_spelling e (extract_sound h), extract_subst he hs, h]
+  | none =>
+    rcases preProcessLoop_subst_or_dollar e s 0 with h' | h'
+    · rw [h']; simp only [List.replicate_zero, List.nil_append]; rw [extract_subst he hs, h]
+    · have hne : '$' ≠ e := fun h => hd h.symm
+      exact extract_none_of_foreign_char h' hne dollar_not_valid
+
+/-- `Language::extract_meta_var ∘ pre_process_pattern` of a language means the documented
+`$`-semantics, for `$`-native languages and for every expando outside the name alphabet. -/
+theorem langExtract_uniform (e : Char) (s : List Char)
+    (he : e = '$' ∨ isValidMetaVarChar e = false) (hs : e = '$' ∨ e ∉ s) :
+    langExtract e s = extractMetaVar s '$' := by
+  unfold langExtract langPreProcess
+  by_cases h : e = '$'
+  · subst h; simp
+  · simp only [h, ↓reduceIte]
+    exact uniform_across_languages e s (he.resolve_left h) h (hs.resolve_left h)
+
+/-- The generated table of the 23 built-in languages (re-generated from the real
+`expando_char()` / `meta_var_char()` on every run): every language uses `$` as its
+meta-variable character and its expando is `$`, or outside the name alphabet (so
+`langExtract_uniform` applies), or `_` — the three languages of the recorded finding. -/
+theorem expando_table_classified :
+    ∀ row ∈ Generated.expandoTable,
+      row.2.2 = 36 ∧
+      (row.2.1 = 36 ∨ isValidMetaVarChar (Char.ofNat row.2.1) = false ∨
+        (row.2.1 = 95 ∧ (row.1 = "C" ∨ row.1 = "Cpp" ∨ row.1 = "Css"))) := by
+  decide
+
+/-- Counter-example to uniformity for the expando `_` (C, C++, CSS): `$_` is not a hole,
+`$_A` is the *any-node capture* `$$A`, `$$_` is the ellipsis. Replayed on the implementation by
+the C20 oracle; recorded in KNOWN_FINDINGS.jsonl. -/
+theorem underscore_expando_counterexample :
+    langExtract '_' ['$', '_'] = none ∧ extractMetaVar ['$', '_'] '$' = some (.dropped true) ∧
+    langExtract '_' ['$', '_', 'A'] = some (.capture ['A'] false) ∧
+    extractMetaVar ['$', '_', 'A'] '$' = some (.dropped true) ∧
+    langExtract '_' ['$', '$', '_'] = some .multiple ∧
+    extractMetaVar ['$', '$', '_'] '$' = some (.dropped false) := by
+  decide
+
+/-- non-vacuity: the hypotheses of `uniform_across_languages` hold for `µ` and `$A`, and both
+sides are the named capture `A`. -/
+example : isValidMetaVarChar 'µ' = false ∧ 'µ' ∉ ['$', 'A'] ∧
+    extractMetaVar (preProcessPattern 'µ' ['$', 'A']) 'µ' = some (.capture ['A'] true) := by
+  decide
 
 /-! ## An+B -/
 
@@ -118,5 +224,46 @@ theorem substring_python (cs : List Char) (start stop : Option Int) :
       simp only [this, Bool.false_eq_true, ↓reduceIte]
       have : re - rs = 0 := by omega
       simp [this]
+
+
+/-! ## Fix-template scanner -/
+
+/-- Lower-case names and lone sigils stay literal text: a template in which no sigil is
+immediately followed by a name byte `[A-Z0-9_]` is a single literal fragment. -/
+theorem template_literal (mc : UInt8) (tmpl : Bytes) (tr : List Bytes) (h : NoVarStart mc tmpl) :
+    createTemplate tmpl mc tr = { fragments := [tmpl], vars := [] } := by
+  unfold createTemplate
+  rw [scan_noVarStart mc tr tmpl [] [] h]
+  simp
+
+/-- Every capturing spelling is recognised as that variable: a run of `k ∈ {1,2,3}` sigils
+followed by a maximal name `[A-Z0-9_]+`, after sigil-free literal text `pre`, closes the
+fragment `pre`, yields the variable (`$$$NAME` = multi capture; `$NAME`/`$$NAME` = the single
+capture `NAME`, or the transformed variable when `NAME` is a transformation key) with the
+indentation of `pre`, and scanning resumes right after the name. -/
+theorem template_first_var (mc : UInt8) (hmc : isValidMetaVarByte mc = false) (tr : List Bytes)
+    (pre : Bytes) (k : Nat) (hk : 1 ≤ k ∧ k ≤ 3) (name post : Bytes) (hpre : mc ∉ pre)
+    (hne : name ≠ []) (hall : name.all isValidMetaVarByte = true)
+    (hpost : ∀ b, post.head? = some b → isValidMetaVarByte b = false) :
+    createTemplate (pre ++ (List.replicate k mc ++ name ++ post)) mc tr =
+      { fragments := pre :: (scanTemplate mc tr (pre ++ List.replicate k mc ++ name) [] 0 post).1,
+        vars := (mkVar tr k name, getIndentAtOffset pre) ::
+                (scanTemplate mc tr (pre ++ List.replicate k mc ++ name) [] 0 post).2 } := by
+  unfold createTemplate
+  rw [scan_literal_prefix mc tr pre [] [] _ hpre]
+  simp only [List.nil_append]
+  rw [scan_var_step mc hmc tr pre pre k hk name post hne hall hpost]
+
+/-- every recognised variable has a non-empty name over `[A-Z0-9_]` -/
+theorem template_var_names_valid (mc : UInt8) (tr : List Bytes) (src : Bytes) (v : MetaVarExtract)
+    (n : Nat) (h : splitFirstMetaVar src mc tr = some (v, n)) :
+    v.usedVar ≠ [] ∧ v.usedVar.all isValidMetaVarByte = true :=
+  ⟨(splitFirst_name_valid h).1, (splitFirst_name_valid h).2.1⟩
+
+/-- non-vacuity / worked instance: `f($A, $$$R)` as bytes -/
+example : createTemplate [0x66, 0x28, 0x24, 0x41, 0x2C, 0x20, 0x24, 0x24, 0x24, 0x52, 0x29] 0x24 [] =
+    { fragments := [[0x66, 0x28], [0x2C, 0x20], [0x29]],
+      vars := [(.single [0x41], 0), (.multiple [0x52], 0)] } := by
+  decide
 
 end AGV.C20
